@@ -17,7 +17,7 @@ crate=$(echo "$copy_to" | sed -E 's#crates/([^/]+)/.*#\1#')
 tname=$(basename "$copy_to" .rs)
 # the demo is run with the command its author recorded (it may need --features verif-hooks)
 demo_cmd=$(python3 -c "import json;print(json.load(open('$OUT/meta.json')).get('demo_cmd',''))")
-case "$demo_cmd" in cargo\ test*) ;; *) demo_cmd="cargo test -p $crate --offline --test $tname";; esac
+case "$demo_cmd" in *cargo\ test*) ;; *) demo_cmd="cargo test -p $crate --offline --test $tname";; esac
 cd "$WT" && git checkout -q -- . && git clean -fdq
 # 1. demo on clean tree
 mkdir -p "$(dirname "$copy_to")"; cp "$OUT/demo/$(basename "$copy_to")" "$copy_to" 2>/dev/null || cp "$OUT"/demo/*.rs "$copy_to"
